@@ -100,6 +100,7 @@ class GenOpts:
     mc_shape: Optional[int] = None  # parameter directions of the claim/release events (cycled)
     many: float = 0.04              # probability of a two-digit count (events, formals, ports)
     ref_externs: float = 0.25       # externs whose C++ type is a reference (in-parameters only)
+    mc_enum_family: bool = False    # the claim enum holds X next to an earlier NotX; X grants
 
 
 @dataclass
@@ -152,6 +153,13 @@ class ModelGen:
             base = rng.choice(self.simple_names)
             cand = rng.choice([base + rng.choice(['x', 'Sim', '2', '_a', 'ice']),
                                base[:max(1, len(base) - rng.randint(1, 2))]])
+            if rng.random() < 0.3:
+                # ... or that reads like a qualified name with the dots left out (Hal.Motor /
+                # HalMotor): keys glued together without a separator confuse those
+                paths = [f for _k, f, _o in self.decls() if len(f) >= 2]
+                if paths:
+                    path = rng.choice(paths)
+                    cand = ''.join(path[-2:])
             if cand not in node.taken and cand not in CPP_KEYWORDS and cand not in RESERVED \
                     and '__' not in cand and cand != '_' and \
                     not (cand.startswith('_') and len(cand) > 1 and cand[1].isupper()):
@@ -219,8 +227,19 @@ class ModelGen:
     def _enum_fields(self, owner: str = '') -> List[str]:
         # an enumerator may not be named like the struct that wraps the enum in C++
         taken: set = {owner, 'type'}
-        return [fresh(self.rng, taken, self.rng.choice(['camel', 'single', 'digit']))
-                for _ in range(self.rng.randint(1, 4))]
+        fields = [fresh(self.rng, taken, self.rng.choice(['camel', 'single', 'digit']))
+                  for _ in range(self.rng.randint(1, 4))]
+        if self.rng.random() < 0.4:
+            # enumerators that contain one another (NotOk / Ok, OK / OKAY): one that merely ends
+            # or starts with another is another value, wherever it stands in the list
+            base = self.rng.choice(fields)
+            for relative in (self.rng.choice(['Not', 'N', 'Un']) + base,
+                             base + self.rng.choice(['AY', '2', '_x'])):
+                if relative not in taken and relative not in CPP_KEYWORDS and \
+                        self.rng.random() < 0.7:
+                    taken.add(relative)
+                    fields.insert(self.rng.randint(0, len(fields)), relative)
+        return fields
 
     def add_enum(self, node: Optional[NsNode] = None) -> Tuple[List[str], M.Enum]:
         node = node or self._pick_node()
@@ -282,11 +301,17 @@ class ModelGen:
         name = self._name(node, 'camel')
         itf = M.Interface([name])
         fqn = node.fqn + [name]
-        nested = rng.random() < 0.5
+        nested = rng.random() < 0.5 or self.o.mc_enum_family
+        prefer_reply = None
         if nested or not [e for e in self.enums if self._enum_visible(e[0], fqn)]:
             en = fresh(rng, {name}, 'camel')
             enum = M.Enum([en], self._enum_fields(en) + [fresh(rng, {en}, 'camel') + 'Z'])
             enum.fields = list(dict.fromkeys(enum.fields))
+            if self.o.mc_enum_family:
+                base = enum.fields[-1]
+                enum.fields = [f for f in enum.fields if f != 'Not' + base]
+                enum.fields.insert(rng.randint(0, len(enum.fields) - 1), 'Not' + base)
+                prefer_reply = base
             itf.types.append(enum)
             enum_fqn = fqn + [en]
             self.enums.append((enum_fqn, enum))
@@ -375,7 +400,7 @@ class ModelGen:
         rng.shuffle(events)
         itf.events = events
         info = {'claim': claim, 'release': release, 'enum_fqn': list(enum_fqn),
-                'fields': list(enum.fields), 'itf_fqn': list(fqn)}
+                'fields': list(enum.fields), 'itf_fqn': list(fqn), 'prefer_reply': prefer_reply}
         self.mc_interfaces.append((ent, info))
         return ent, info
 
@@ -394,8 +419,11 @@ class ModelGen:
         fqn, itf, _node = ent
         taken: set = {t.name[0] for t in itf.types if not isinstance(t, M.Unknown)}
         n = self._rint(o.n_events, (10, 13)) if n_events is None else n_events
+        # a third of the interfaces is one-directional: commands only, or notifications only
+        profile = rng.choice(['mixed', 'mixed', 'mixed', 'mixed', 'in-only', 'out-only'])
         for _ in range(n):
-            direction = rng.choice(['in', 'in', 'out'])
+            direction = {'in-only': 'in', 'out-only': 'out'}.get(profile) or \
+                rng.choice(['in', 'in', 'out'])
             ename = fresh(rng, taken, rng.choice(['camel', 'single', 'snake', 'digit', 'under']))
             formals = []
             ftaken: set = set()
